@@ -26,6 +26,8 @@ def run_one(prop: str, tier: str, repo_root: str, seed: int, evidence_dir: str) 
         mod.run(ctx)
         if tier == "thorough" and hasattr(mod, "run_thorough"):
             mod.run_thorough(ctx)
+            from .selftest.equiv import run_equivalences
+            run_equivalences(ctx)
         return finish(ctx, mod.FLOOR, mod.EXPLANATION, mod.RULE, os.path.join(evidence_dir, f"{prop}.json"))
     except AnalysisError as e:
         print(f"ANALYSIS-ERROR property={prop} {e}")
